@@ -14,7 +14,9 @@ var verifWatcher *AuthIp
 
 // VerifReset empties the live whitelist and forgets the watcher object (a fresh process).
 func VerifReset() {
-	VerifQuiesce()
+	if verifTouched {
+		VerifQuiesce()
+	}
 	IpMap.enable = false
 	IpMap.HashMap = hashmap.HashMap{}
 	verifWatcher = nil
@@ -25,6 +27,7 @@ func VerifReload(dir, file string) error {
 	if verifWatcher == nil || verifWatcher.path != dir || verifWatcher.name != dir+"/"+file {
 		verifWatcher = &AuthIp{path: dir, name: dir + "/" + file}
 	}
+	verifTouched = true
 	err := verifWatcher.parseAuthIp()
 	VerifQuiesce()
 	return err
@@ -37,8 +40,18 @@ func VerifSet(enable bool, ips ...string) {
 	for _, ip := range ips {
 		IpMap.Insert(ip, struct{}{})
 	}
-	VerifQuiesce()
+	if len(ips) > 0 {
+		verifTouched = true
+		VerifQuiesce()
+	}
 }
+
+// set once anything was inserted in this process (the real watcher of the thorough tier inserts from its own goroutine and is
+// started after a reset, so it counts as touched as well: see VerifTouch)
+var verifTouched bool
+
+// VerifTouch marks the map as possibly growing (used before the real watcher is started).
+func VerifTouch() { verifTouched = true }
 
 var verifGrow = []byte("created by github.com/cornelk/hashmap.") // matches the goroutine before its first instruction, too
 
